@@ -273,6 +273,9 @@ def rule_stored_env_private(ctx):
                     virt = next((k.value for k in sel.keywords if k.arg == "virtual"), None)
                     private = copied or (isinstance(virt, ast.Constant) and virt.value is False)
                     q = f"{f.qualname}:{a.targets[0].value.id}[{src_of(a.targets[0].slice)[:30]}]"
+                    if virt is not None and not isinstance(virt, ast.Constant) and not copied:
+                        r.skip(q, f"`virtual={src_of(virt)[:30]}` is a run-time value")
+                        continue
                     if private:
                         r.ok(q, sample={"producer": f.qualname, "stored": src_of(v)[:60], "private": True})
                     else:
